@@ -242,6 +242,7 @@ def run(ctx):
     constness_predicates(ctx)
     mirrored_slots(ctx)
     overload_order(ctx)
+    const_this_protocol(ctx)
 
 
 def _canon_arm(db, f, stmts, label):
@@ -451,4 +452,44 @@ def overload_order(ctx):
     ok = G.gated(f, ri, G.edges_where(f, G.pred_false("TypeManager::is_bool", "is_bool")))
     ctx.ob("R02.6", "get_type_sort|integer-rank-excludes-bool", ok, f.loc(ri),
            "the integer rank %d is %sgiven only when !is_bool(type) (is_integer() is true for bool)" % (final["is_integer"][0], "" if ok else "NOT "))
+
+
+
+
+def const_this_protocol(ctx):
+    """R02.7: a generated wrapper gets `this` either with Dtool_Call_ExtractThisPointer (accepts a const wrapper; the
+    body must then verify constness per overload: write_function_forset(..., verify_const = true)) or with
+    Dtool_Call_ExtractThisPointer_NonConst (raises TypeError for a const wrapper; the body may skip the test).  Emitting
+    the permissive extractor together with verify_const = false lets Python mutate a const object."""
+    db = ctx.db
+    ctx.rule("R02.7", "in the python-native generator, every write_function_forset(..., verify_const = false) is preceded in its function by the emission of the _NonConst `this` extractor (never by the const-accepting one)")
+    n = 0
+    for f in db.functions:
+        if not f.file.endswith("interfaceMakerPythonNative.cxx"):
+            continue
+        events = []
+        for x in f.walk():
+            if x.get("k") == "str" and "Dtool_Call_ExtractThisPointer" in (x.get("v") or ""):
+                events.append((f.line_of(x), x.get("i", 0), "extract", "_NonConst" in x["v"], x))
+            if x.get("k") == "call" and callee_short(x) == "write_function_forset":
+                args = x.get("a", [])
+                vc = args[11] if len(args) > 11 else None
+                if vc is not None and vc.get("k") == "defarg":
+                    vc = vc.get("e")
+                val = const_int(vc) if vc is not None else 1
+                events.append((f.line_of(x), x.get("i", 0), "forset", val, x))
+        events.sort(key=lambda e: (e[0], e[1]))
+        last = None
+        for line, _, kind, val, node in events:
+            if kind == "extract":
+                last = (val, node)
+            elif kind == "forset" and val == 0:
+                n += 1
+                if last is None:
+                    ctx.info("R02.7 %s: verify_const = false with no `this` extraction in the function (static / no this)" % f.loc(node))
+                    continue
+                ok = bool(last[0])
+                ctx.ob("R02.7", "%s|line-order|verify_const-false-needs-nonconst-this" % f.name.split("::")[-1], ok, f.loc(node),
+                       "write_function_forset(..., verify_const = false) follows the emission of %s" % ("the _NonConst extractor" if ok else "the const-accepting extractor (line %d): a const object can be mutated through this wrapper" % f.line_of(last[1])))
+    ctx.floor("R02.7", "wrappers written with verify_const = false", n, 2)
 
